@@ -37,7 +37,7 @@ def plan(tier, seed):
         floors=({"tablebase roots searched": 1000, "non-trivial root (DTM >= 3 or hmc >= 60)": 700, "root won, mate inside the 50-move limit": 150,
                  "root lost, mate inside the 50-move limit": 200, "root drawn": 100, "root beyond the 50-move limit, class without zeroing moves": 25,
                  "reuse of the resident table": 500, "class switch": 100, "first table of the process": 200, "Threads > 1": 300,
-                 "Hash 8": 150, "Hash 16": 150, "Hash 64": 150} if quick else
+                 "Hash 8": 150, "Hash 16": 150, "Hash 64": 150, "hash cleared between two tablebase roots": 60} if quick else
                 {"tablebase roots searched": 12000, "non-trivial root (DTM >= 3 or hmc >= 60)": 8000, "root drawn": 1000,
                  "root beyond the 50-move limit, class without zeroing moves": 500, "class switch": 1500, "regeneration after the table was dropped": 50}),
         assumptions=["oracle: refdtm tables (own retrograde generator, validated in-process by the minimax recurrence over refchess successors and literature maxima); "
